@@ -706,6 +706,12 @@ func c08RelayBlocked(withTimeouts bool, bound int) *Scenario {
 				if connB == nil {
 					connB = c
 				}
+				// what a state machine does on every dispatch: look at the connection's context
+				_ = c.Context()
+				c.SetContext(c.Context())
+				_ = c.LocalAddr()
+				_ = c.RemoteAddr()
+				_ = c.Dictionary()
 				c08rb.handledB = append(c08rb.handledB, m.Header.EndToEndID)
 				vs.Event("handler on B got message %d", m.Header.EndToEndID)
 				return
